@@ -64,6 +64,7 @@ func (p *Pool[K, V]) Close() (err error) {
 	var eg errs.Group
 	for ent := p.order.head; ent != nil; ent = ent.global.next {
 		eg.Add(p.closeEntry(ent))
+		ent.gone = true
 	}
 
 	p.entries = make(map[K]*list[K, V])
@@ -93,13 +94,17 @@ func (p *Pool[K, V]) removeEntry(ent *entry[K, V]) {
 	p.mu.Lock()
 	defer p.mu.Unlock()
 
+	// the entry may already have been unlinked by Take, Put or Close while the
+	// expiration callback was on its way here; unlinking it a second time
+	// would corrupt the lists and their counts.
 	local := p.entries[ent.key]
-	if local == nil {
+	if local == nil || ent.gone {
 		return
 	}
 
 	local.removeEntry(ent, (*entry[K, V]).localList)
 	p.order.removeEntry(ent, (*entry[K, V]).globalList)
+	ent.gone = true
 
 	if local.count == 0 {
 		delete(p.entries, ent.key)
@@ -138,6 +143,7 @@ func (p *Pool[K, V]) Take(key K) (V, bool) {
 
 		local.removeEntry(ent, (*entry[K, V]).localList)
 		p.order.removeEntry(ent, (*entry[K, V]).globalList)
+		ent.gone = true
 
 		if ent.exp != nil && !ent.exp.Stop() {
 			continue
@@ -178,6 +184,7 @@ func (p *Pool[K, V]) Put(key K, val V) {
 
 		local.removeEntry(ent, (*entry[K, V]).localList)
 		p.order.removeEntry(ent, (*entry[K, V]).globalList)
+		ent.gone = true
 	}
 
 	for p.opts.Capacity != 0 && p.order.count >= p.opts.Capacity {
@@ -188,6 +195,7 @@ func (p *Pool[K, V]) Put(key K, val V) {
 
 		local.removeEntry(ent, (*entry[K, V]).localList)
 		p.order.removeEntry(ent, (*entry[K, V]).globalList)
+		ent.gone = true
 
 		if local.count == 0 {
 			delete(p.entries, ent.key)
